@@ -102,6 +102,9 @@ func extract(a hx.ExtractArgs) error {
 	lf.DefString("flushComparison", flushCmp)
 	lf.DefNat("goroutines", uint64(goroutines))
 	_ = token.ADD
+	if err := extractBufferFacts(src, lf); err != nil {
+		return err
+	}
 	return lf.Write(a.Out)
 }
 
@@ -149,6 +152,8 @@ func setup() (*env, error) {
 		e.MustExec(ctx, "insert into seq values "+strings.Join(vals, ","))
 	}
 	e.MustExec(ctx, "create table w (a int primary key, t varchar(20))", "insert into w values (1,'a'),(2,'b')")
+	setupOwn(e)
+	setupBig(e)
 	l, err := net.Listen("tcp", "127.0.0.1:0")
 	if err != nil {
 		return nil, err
@@ -299,7 +304,11 @@ func run(a hx.RunArgs) error {
 	defer out.Close()
 	out.Rule = "pipe: SELECT with n result rows (n around every multiple of 128 and 512, 0, 1, random) through the real Handler.ComQuery, observation = callback batch sizes, checked against the LTS model under a random schedule; " +
 		"wire: SELECT/DML/error statements through server.Server + go-sql-driver in text and binary protocol vs. in-process Engine.Query (rows in order, NULLs, decimals, big unsigned); " +
-		"conc: 8-24 concurrent clients with different-sized queries vs. their sequential results; non-trivial = result has rows or is an error"
+		"conc: 8-24 concurrent clients with different-sized queries (every other one on its own table with a recognisable payload) vs. their sequential results; " +
+		"alias: trees of statements of up to 8 connections through the real Handler.ComQuery where the nested statements of other connections execute after a callback has been entered and before it reads its rows (all result paths: max-1-row, OK, empty, <1 batch, k*128, batches+tail), rows read in the callback vs. in-process rows, schedule replayed on the Lean buffer-pool model; " +
+		"disp: every key kind (primary, NOT NULL unique, nullable unique with several NULLs, composite unique with nullable column, non-unique) x operator (=, <=>, IN, IS NULL, ranges, OR/AND forms) x operand (present, absent, NULL) + a script of aggregates/limits/unions/subqueries/session/DML/DDL/procedure/error statements + random combinations, on three identical engines: in-process (schema kind, QFlagMax1Row, rows), Handler.ComQuery (callback sizes vs. the Lean dispatch model), wire text / binary / binary with bound parameters; " +
+		"cursor: server-side cursors (raw protocol client: COM_STMT_PREPARE / EXECUTE with CURSOR_TYPE_READ_ONLY / FETCH in chunks) on single-callback results with and without other connections busy between EXECUTE and FETCH, and on multi-batch results with a pausing client, vs. in-process rows; " +
+		"slow: 6 real clients read multi-MB single-letter tables and start reading late, every byte checked; non-trivial = result has rows or is an error"
 	r := hx.NewRand(a.Seed)
 	en, err := setup()
 	if err != nil {
@@ -354,6 +363,20 @@ func run(a hx.RunArgs) error {
 				out.OracleFail(id, "-", fmt.Sprintf("rows delivered through the callback differ from the engine's rows for %s (%d vs %d rows)", q, len(got), len(want)))
 			}
 		}
+	}
+
+	// ---- alias: statements of other connections between spooling and the callback's read
+	nAlias := 40
+	if a.Thorough {
+		nAlias = 400
+	}
+	if err := runAlias(en, out, hx.NewRand(a.Seed*1000003+17), nAlias); err != nil {
+		return err
+	}
+
+	// ---- disp: spooling dispatch (OK / row-less / max-1-row / batches) vs the in-process engine
+	if err := runDisp(out, hx.NewRand(a.Seed*1000003+29), a.Thorough); err != nil {
+		return err
 	}
 
 	// ---- wire
@@ -451,6 +474,10 @@ func run(a hx.RunArgs) error {
 		for j := range jobs {
 			n := hx.Pick(r, []int{0, 1, 100, 128, 129, 500, 512, 513, 1000, nRows})
 			jobs[j] = &job{q: fmt.Sprintf("select i, s, n from seq where i %% %d = 0 and i < %d order by i", 1+r.Intn(3), n+j)}
+			if j%2 == 1 {
+				// every other client reads only its own table (recognisable payload per connection)
+				jobs[j].q = fmt.Sprintf("select id, tag, n from own%d where id < %d order by id", j%nOwn, min(n+j, ownRows))
+			}
 			jobs[j].want, jobs[j].werr = inproc(en, jobs[j].q)
 		}
 		var wg sync.WaitGroup
@@ -478,5 +505,18 @@ func run(a hx.RunArgs) error {
 			out.OracleFail(id, "-", "concurrent client received a result different from its sequential result: "+bad)
 		}
 	}
+	// ---- slow: clients that read late, handlers parked in the write of the final batch
+	slowRounds := 1
+	if a.Thorough {
+		slowRounds = 12
+	}
+	runSlow(en, out, hx.NewRand(a.Seed*1000003+41), slowRounds)
+
+	// ---- cursor: server-side cursors through a raw protocol client
+	nCursor, nCursorMulti := 10, 1
+	if a.Thorough {
+		nCursor, nCursorMulti = 100, 4
+	}
+	runCursor(en, out, hx.NewRand(a.Seed*1000003+53), nCursor, nCursorMulti)
 	return nil
 }
